@@ -625,23 +625,23 @@ var bufferPool = &sync.Pool{ //nolint:gochecknoglobals
 
 func (c *Client) handleAgentCallback(event Event) { //nolint:cyclop
 	c.mux.Lock()
-	if c.closed {
-		c.mux.Unlock()
-
-		return
-	}
+	closed := c.closed
 	transaction, found := c.t[event.TransactionID]
 	if found {
 		delete(c.t, transaction.id)
 	}
 	c.mux.Unlock()
 	if !found {
-		if c.handler != nil && !errors.Is(event.Error, ErrTransactionStopped) {
+		if !closed && c.handler != nil && !errors.Is(event.Error, ErrTransactionStopped) {
 			c.handler(event)
 		}
 		// Ignoring.
 		return
 	}
+	// A transaction that is still registered is completed even when the
+	// client is closed: its handler is called exactly once (a retransmission
+	// attempt below fails with ErrClientClosed), so Close never leaves a
+	// started transaction, or a blocked Do, behind.
 	if atomic.LoadInt32(&c.maxAttempts) <= transaction.attempt || event.Error == nil {
 		// Transaction completed.
 		transaction.handle(event)
